@@ -620,7 +620,11 @@ func (r *stateResolverV2) calculateFullAuthChainAndConflictedSubgraph(
 			conflictedSubgraphEventIDs := append(slices.Clone(curr.visiting), curr.pdu.EventID())
 			fmt.Printf("found conflicted subgraph %v\n", conflictedSubgraphEventIDs)
 			for _, eventID := range conflictedSubgraphEventIDs {
-				conflictedSubgraph.Insert(r.authEventMap[eventID])
+				// a conflicted event that is not among the auth events is already
+				// part of the conflicted set; never insert a nil PDU.
+				if subgraphEvent, ok := r.authEventMap[eventID]; ok {
+					conflictedSubgraph.Insert(subgraphEvent)
+				}
 			}
 		}
 
@@ -971,11 +975,20 @@ func (r *stateResolverV2) getPowerLevelFromAuthEvents(event PDU) int64 {
 		// get the create event
 		createEvent := r.resolvedCreate
 		if createEvent == nil {
-			panic("getPowerLevelFromAuthEvents: missing resolved create event, cannot calculate PL of sender!")
+			// No create event has been resolved yet (v2.1 starts from the empty state):
+			// use the create event the event itself refers to, if we were given it.
+			for _, authID := range event.AuthEventIDs() {
+				if authEvent, ok := r.authEventMap[authID]; ok && authEvent.Type() == spec.MRoomCreate && authEvent.StateKeyEquals("") {
+					createEvent = authEvent
+					break
+				}
+			}
 		}
-		for _, creator := range CreatorsFromCreateEvent(createEvent) {
-			if creator == string(user) {
-				return CreatorPowerLevel
+		if createEvent != nil {
+			for _, creator := range CreatorsFromCreateEvent(createEvent) {
+				if creator == string(user) {
+					return CreatorPowerLevel
+				}
 			}
 		}
 		// otherwise they aren't a creator, so check the PL event.
